@@ -39,7 +39,7 @@ static inline StdCall feed_standard(Ctx &c, vnacal_new_t *vnp, const SessionSpec
 	Mat S = std_truth(ss, st, params, ss.fv[f]);
 	Mat M = ss.world.measure(S, ss.fv[f]);
 	Mat sub(R, C);
-	for (int i = 0; i < R; ++i) for (int j = 0; j < C; ++j) sub(i, j) = M(ri[i], ci[j]);
+	for (int i = 0; i < R; ++i) for (int j = 0; j < C; ++j) sub(i, j) = f == ss.dead_f ? zc(0, 0) : M(ri[i], ci[j]);
 	if (!ss.ab) { for (int i = 0; i < R; ++i) for (int j = 0; j < C; ++j) m.at(i, j, f) = toc(sub(i, j)); continue; }
 	if (ue) {
 	    for (int j = 0; j < C; ++j) {
@@ -154,6 +154,21 @@ static inline ApplyResult apply_device(Ctx &c, vnacal_t *vcp, int ci, const Sess
 	}
 	vnadata_t *out;
 	{ LibCall lc(c); out = vnadata_alloc(sim_error_fn, (void *)(uintptr_t)0x20); lc.done(); }	// own error_arg: its reports are told apart from the vnacal_t's
+	// the destination is not always a fresh object: it may hold an earlier result of the same shape with other reference
+	// impedances (ordinary or per frequency), or data of another type and shape; the result must not depend on that
+	int soil = (int)(VnaWorld::u(dut_seed, 4711, n, 0) * 5);
+	if (out && soil >= 1) {
+	    LibCall lc(c);
+	    if (soil == 4) { vnadata_init(out, VPT_Z, 3, 3, 2); vnadata_set_all_z0(out, mkc(75, 0)); }
+	    else {
+		vnadata_init(out, VPT_S, P, P, n);
+		vnadata_set_all_z0(out, mkc(75, -3));
+		if (soil >= 2 && n > 0) vnadata_set_fz0(out, n - 1, 0, mkc(30, 5));
+		if (soil == 3) vnadata_set_cell(out, 0, 0, 0, mkc(9, 9));
+	    }
+	    g_sim.callbacks.clear();
+	    lc.done();
+	}
 	int rc, e = 0;
 	LIB_RETRY(c, faultop, "vnacal_apply", e, rc != 0,
 	    rc = ss.ab ? vnacal_apply(vcp, ci, fv.data(), n, a.ptrs.data(), a.rows, a.cols, b.ptrs.data(), P, P, out)
@@ -163,7 +178,10 @@ static inline ApplyResult apply_device(Ctx &c, vnacal_t *vcp, int ci, const Sess
 	if (rc == 0) {
 	    LibCall lc(c);
 	    if (vnadata_get_type(out) != VPT_S || vnadata_get_rows(out) != P || vnadata_get_columns(out) != P || vnadata_get_frequencies(out) != n) rc = -2;
-	    else for (int k = 0; k < n; ++k) for (int i = 0; i < P; ++i) for (int j = 0; j < P; ++j) res.s[(size_t)which[k]](i, j) = toz(vnadata_get_cell(out, k, i, j));
+	    else if (vnadata_has_fz0(out)) { rc = -2; c.violate("model", "apply:destination", strf("the result of vnacal_apply keeps per-frequency reference impedances of what the destination held before (case %d)", soil)); }
+	    else for (int p = 0; p < P && rc == 0; ++p) { cplx z = vnadata_get_z0(out, p); if (__real__ z != 50 || __imag__ z != 0) { rc = -2; c.violate("model", "apply:destination", strf("the result of vnacal_apply has z0 %g%+gj on port %d: left over from what the destination held before (case %d)", __real__ z, __imag__ z, p + 1, soil)); } }
+	    if (rc == 0) for (int k = 0; k < n; ++k) if (vnadata_get_frequency(out, k) != fv[(size_t)k]) { rc = -2; c.violate("model", "apply:destination", strf("frequency %d of the result is %g, requested %g", k, vnadata_get_frequency(out, k), fv[(size_t)k])); break; }
+	    if (rc == 0) for (int k = 0; k < n; ++k) for (int i = 0; i < P; ++i) for (int j = 0; j < P; ++j) res.s[(size_t)which[k]](i, j) = toz(vnadata_get_cell(out, k, i, j));
 	    lc.done();
 	} else res.err = e;
 	{ LibCall lc(c); vnadata_free(out); lc.done(); }
